@@ -71,7 +71,7 @@ func (o *Object) Sort() {
 func (o *Object) MarshalJSON() ([]byte, error) {
 	var buf bytes.Buffer
 	buf.WriteByte('{')
-	for i, v := range o.Attributes {
+	for _, v := range o.Attributes {
 		a, err := v.MarshalJSON()
 		if err != nil {
 			return nil, err
@@ -79,7 +79,7 @@ func (o *Object) MarshalJSON() ([]byte, error) {
 		if len(a) == 0 { // as per spec, skip empty attributes
 			continue
 		}
-		if i > 0 {
+		if buf.Len() > 1 { // something already written after the '{'
 			buf.WriteByte(',')
 		}
 		buf.Write(a)
